@@ -272,7 +272,7 @@ class PathResult:
 class Event:
     """kind: 'call' (any call / construct; nf = its value), 'store' (place, value), 'mutate' (place, how),
     'init' (field name, value, written), 'baseinit' (callee side entry, args)"""
-    __slots__ = ('kind', 'node', 'nf', 'place', 'how', 'value', 'conds_n', 'extra', 'ver', 'inlined', 'depth')
+    __slots__ = ('kind', 'node', 'nf', 'place', 'how', 'value', 'conds_n', 'extra', 'ver', 'inlined', 'depth', 'idiom')
 
     def __init__(self, kind, node, nf=None, place=None, how=None, value=None, conds_n=0, extra=None):
         self.kind = kind
@@ -286,6 +286,7 @@ class Event:
         self.ver = None          # versions of all places just before the event
         self.inlined = False     # call / baseinit whose callee's own events follow in the same path (statement-level inlining)
         self.depth = 0           # inlining depth at which the event happened (0 = the analysed function itself)
+        self.idiom = False       # a whole loop recognised as the algorithm named in `how` (node is the loop statement)
 
     def __repr__(self):
         return 'Event(%s, %s, place=%s, how=%s)' % (self.kind, show(self.nf) if self.nf else None,
@@ -321,7 +322,7 @@ class SymExec:
 
     MAX_INLINE_DEPTH = 6
 
-    def __init__(self, tu, own=lambda f: False, inline_stmt=None, recognise_search=False):
+    def __init__(self, tu, own=lambda f: False, inline_stmt=None, recognise_search=False, recognise_loops=False):
         """own(fn entry) -> may calls to this function be replaced by its returned value when it is a
         single-path function without side effects?
         inline_stmt(fn entry) -> follow calls to this function: its paths are spliced into the caller's paths (its
@@ -333,6 +334,8 @@ class SymExec:
         self.own = own
         self.inline_stmt = inline_stmt or (lambda f: False)
         self.recognise_search = recognise_search
+        self.recognise_loops = recognise_loops     # whole-loop idioms (cursor search, shift-down compaction) are replaced by the algorithm they are
+        self._loops = {}
         self._pure = {}
         self._paths = {}
         self._search = {}
@@ -656,6 +659,12 @@ class SymExec:
         name = self.call_name(sd, e)
         ln = last(self.call_name(sd))
         # overloaded operators written with operator syntax
+        if k == 'CXXOperatorCallExpr' and ln == 'operator()' and not sd.get('rec') and args:
+            # a closure held in a local and called: its single-expression body with the arguments in place of the parameters
+            vals = self.args_nf(sd, args, st, depth)
+            if isinstance(vals[0], tuple) and len(vals[0]) == 2 and vals[0][0] == 'pred':
+                return self._subst(vals[0][1], {('lparam', i): v for i, v in enumerate(vals[1:])})
+            return ('call', name, None) + tuple(vals)
         if k == 'CXXOperatorCallExpr' and not sd.get('rec'):
             vals = self.args_nf(sd, args, st, depth)
             if ln in ('operator==', 'operator!=') and len(vals) == 2:
@@ -1137,6 +1146,11 @@ class SymExec:
             if visited.count(bid) >= 2:
                 return
             visited = visited + (bid,)
+        if fresh and idx == 0 and self.recognise_loops:
+            li = self.loop_idioms(fn).get(bid)
+            if li is not None and self._apply_loop(li, st, depth):
+                self._run(fn, g, li['exit'], 0, st, visited, depth, results, True)
+                return
         blk = g.blocks[bid]
         els = blk.el
         i = idx
@@ -1229,6 +1243,225 @@ class SymExec:
         else:
             for j, s in live:
                 self._run(fn, g, s, 0, st.clone(), visited, depth, results, True)
+
+    # ------------------------------------------------------------------ whole-loop idioms
+    def loop_idioms(self, fn):
+        """{block where the loop condition starts: dict(node, exit, A, B, inc, body)} for the while / for loops of fn whose condition
+        is `B` or `A && B` (A decided in a block of its own); whether a loop is one of the recognised idioms is decided when a path
+        reaches it (_apply_loop), in the state it is reached with"""
+        fid = fn['id']
+        if fid in self._loops:
+            return self._loops[fid]
+        out = {}
+        self._loops[fid] = out
+        tu = self.tu
+        g = tu.cfg(fn)
+        if g is None:
+            return out
+        for bid, blk in g.blocks.items():
+            tn = tu.node(blk.term) if blk.term else None
+            if tn is None or tn.get('kind') not in ('WhileStmt', 'ForStmt'):
+                continue
+            inner = tn.get('inner') or []
+            if tn['kind'] == 'WhileStmt':
+                ks = tu.kids(tn)
+                if len(ks) != 2:
+                    continue
+                cond, inc, body = ks[0], None, ks[1]
+            else:
+                if len(inner) != 5 or inner[1] or not inner[2]:
+                    continue
+                cond, inc, body = inner[2], (inner[3] or None), (inner[4] or None)
+            if len(blk.succ) != 2 or blk.succ[0] is None or blk.succ[1] is None:
+                continue
+            exit_b = blk.succ[1]
+            head = bid
+            c = tu.strip(cond)
+            while c is not None and c.get('kind') == 'ParenExpr':
+                c = tu.strip(tu.kids(c)[0])
+            A, B = None, c
+            if c is not None and c.get('kind') == 'BinaryOperator' and c.get('opcode') == '&&':
+                hb = [b2 for b2, k2 in g.blocks.items() if k2.term == c.get('id')]
+                if len(hb) != 1:
+                    continue
+                hblk = g.blocks[hb[0]]
+                if len(hblk.succ) != 2 or hblk.succ[0] != bid or hblk.succ[1] != exit_b:
+                    continue
+                head = hb[0]
+                A, B = tu.kids(c)
+            out[head] = dict(node=tn, exit=exit_b, A=A, B=B, inc=inc, body=body)
+        return out
+
+    def _flat_stmts(self, n):
+        if not n:
+            return []
+        k = n.get('kind')
+        if k == 'CompoundStmt':
+            out = []
+            for x in self.tu.kids(n):
+                out.extend(self._flat_stmts(x))
+            return out
+        if k == 'NullStmt':
+            return []
+        if k == 'ExprWithCleanups':
+            return self._flat_stmts(self.tu.kids(n)[0])
+        return [n]
+
+    def _incr_operand(self, n):
+        """operand node of `++x` / `x++` on a local variable x, else None"""
+        tu = self.tu
+        n = tu.strip(n) if n else None
+        if n is None:
+            return None
+        op = None
+        if n.get('kind') == 'UnaryOperator' and n.get('opcode') == '++':
+            op = tu.kids(n)[0]
+        elif n.get('kind') == 'CXXOperatorCallExpr' and last(self.call_name(tu.sd(n))) == 'operator++':
+            ks = tu.kids(n)
+            op = ks[1] if len(ks) > 1 else None
+        if op is None or self.local_var_of(op) is None:
+            return None
+        return op
+
+    def _effect_free(self, n):
+        for x in self.tu.walk(n):
+            k = x.get('kind')
+            if k in ('CompoundAssignOperator', 'CXXThrowExpr', 'CXXNewExpr', 'CXXDeleteExpr'):
+                return False
+            if k == 'BinaryOperator' and x.get('opcode') == '=':
+                return False
+            if k == 'UnaryOperator' and x.get('opcode') in ('++', '--'):
+                return False
+            if k == 'CXXOperatorCallExpr' and last(self.call_name(self.tu.sd(x))) in ('operator++', 'operator--', 'operator=', 'operator+=', 'operator-='):
+                return False
+        return True
+
+    def _loop_event(self, li, st, how, val, args):
+        ev = Event('call', li['node'], nf=val, how=how, conds_n=len(st.conds), extra=({}, None, []))
+        ev.ver = dict(st.ver)
+        ev.value = tuple(args)
+        ev.idiom = True
+        st.events.append(ev)
+
+    def _apply_loop(self, li, st, depth):
+        try:
+            return self._loop_search(li, st) or self._loop_compact(li, st)
+        except (Unsupported, KeyError, IndexError, TypeError):
+            return False
+
+    def _bound_test(self, test, cur, st):
+        """`last` if the (effect-free) test is `cur != last`, else None"""
+        if test is None or not self._effect_free(test):
+            return None
+        a = self.nf(test, st)
+        if not (isinstance(a, tuple) and len(a) == 2 and a[0] == 'not' and isinstance(a[1], tuple) and a[1][0] == 'eq' and cur in a[1][1:]):
+            return None
+        lastnf = a[1][2] if a[1][1] == cur else a[1][1]
+        if lastnf == cur or contains(lastnf, cur):
+            return None
+        return lastnf
+
+    def _loop_search(self, li, st):
+        """while (c != last && T(*c)) ++c;   (also as a for loop with an empty body):   c = find_if(c, last, [!T])"""
+        if li['A'] is None:
+            return False
+        stmts = self._flat_stmts(li['body']) + ([li['inc']] if li['inc'] else [])
+        if len(stmts) != 1:
+            return False
+        op = self._incr_operand(stmts[0])
+        if op is None:
+            return False
+        cid = self.local_var_of(op)
+        cur = self.nf(op, st)
+        lastnf = self._bound_test(li['A'], cur, st)
+        if lastnf is None or not self._effect_free(li['B']):
+            return False
+        s2 = st.clone()
+        s2.vals = {}
+        s2.env[cid] = ('cursor',)
+        b = truth(self.nf(li['B'], s2))
+        b = self._subst(b, {('deref', ('cursor',)): ('lparam', 0)})
+        if contains(b, ('cursor',)) or find_all(b, lambda t: t[0] == 'opaque'):
+            return False
+        pr = ('pred', mk_not(b))
+        val = ('call', 'std::find_if', None, cur, lastnf, pr)
+        self._loop_event(li, st, 'std::find_if', val, (cur, lastnf, pr))
+        st.env[cid] = val
+        self.bump(('var', cid), st)
+        return True
+
+    def _loop_compact(self, li, st):
+        """for (s = next(k); s != last; ++s) if (T(*s)) { *k = std::move(*s); ++k; }
+        where k is the first element of [first, last) for which T fails (k = find_if(first, last, [!T]), k != last):  the standard
+        shift-down compaction,  k = remove_if(first, last, [!T])  and  s = last"""
+        tu = self.tu
+        if li['A'] is not None:
+            return False
+        stmts = self._flat_stmts(li['body']) + ([li['inc']] if li['inc'] else [])
+        if len(stmts) != 2 or stmts[0].get('kind') != 'IfStmt':
+            return False
+        sop = self._incr_operand(stmts[1])
+        iks = tu.kids(stmts[0])
+        if sop is None or len(iks) != 2:
+            return False
+        sid = self.local_var_of(sop)
+        then = self._flat_stmts(iks[1])
+        if len(then) != 2:
+            return False
+        kop = self._incr_operand(then[1])
+        if kop is None:
+            return False
+        kid = self.local_var_of(kop)
+        if kid == sid:
+            return False
+        asg = tu.strip(then[0])
+        if asg is None:
+            return False
+        if asg.get('kind') == 'BinaryOperator' and asg.get('opcode') == '=':
+            lhs, rhs = tu.kids(asg)
+        elif asg.get('kind') == 'CXXOperatorCallExpr' and last(self.call_name(tu.sd(asg))) == 'operator=' and len(tu.kids(asg)) == 3:
+            lhs, rhs = tu.kids(asg)[1:]
+        else:
+            return False
+        scur = self.nf(sop, st)
+        kcur = self.nf(kop, st)
+        lastnf = self._bound_test(li['B'], scur, st)
+        if lastnf is None or not self._effect_free(iks[0]):
+            return False
+        s2 = st.clone()
+        s2.vals = {}
+        s2.env[sid] = ('cursor',)
+        s2.env[kid] = ('kcursor',)
+        if unver(self.nf(lhs, s2)) != ('deref', ('kcursor',)) or unver(self.nf(rhs, s2)) != ('deref', ('cursor',)):
+            return False
+        t = truth(self.nf(iks[0], s2))
+        t = self._subst(t, {('deref', ('cursor',)): ('lparam', 0)})
+        if contains(t, ('cursor',)) or contains(t, ('kcursor',)) or find_all(t, lambda x: x[0] == 'opaque'):
+            return False
+        ku = unver(kcur)
+        if unver(scur) not in (('call', 'std::next', None, ku, ('const', 1)), ('call', 'std::next', None, ku), mk_comm('add', [ku, ('const', 1)])):
+            return False
+        # the hole: k is a position inside the range (the result of a search that did not fail)
+        if not (isinstance(ku, tuple) and len(ku) == 6 and ku[:3] == ('call', 'std::find_if', None) and ku[4] == unver(lastnf)
+                and isinstance(ku[5], tuple) and ku[5][0] == 'pred'):
+            return False
+        if self.known_value(mk_eq(kcur, lastnf), st) is not False:
+            return False
+        if ku[5][1] == unver(mk_not(t)):
+            # k is the first element for which T fails: everything before it is kept in place, so this is remove_if over [first, last)
+            pr = ('pred', mk_not(t))
+            val = ('call', 'std::remove_if', None, kcur[3], lastnf, pr)
+            self._loop_event(li, st, 'std::remove_if', val, (kcur[3], lastnf, pr))
+        else:
+            # the element at k is dropped whatever it is; behind it the elements satisfying T are kept, in order
+            pr = ('pred', t)
+            val = ('call', 'loop::shift_down', None, kcur, lastnf, pr)
+            self._loop_event(li, st, 'loop::shift_down', val, (kcur, lastnf, pr))
+        st.env[kid] = val
+        st.env[sid] = lastnf
+        self.bump(('var', kid), st)
+        self.bump(('var', sid), st)
+        return True
 
     # ------------------------------------------------------------------ linear-search helpers
     def search_summary(self, fn):
